@@ -84,20 +84,34 @@ func refFreshUntil(d refDirectives, respT time.Time, forceDefault bool, def time
 	if d.Ambiguous {
 		return time.Time{}, false
 	}
-	if ignoreCC && (d.NoStore || d.NoCache || d.Private || d.MaxAge == 0 || (d.HasExp && (!d.ExpOK || !d.Exp.After(respT)))) {
-		// "ignore origin cache directives" — whether an ignored max-age=0 still bounds the lifetime is not stated
-		return time.Time{}, false
+	with := lifetimeOf(d, respT, def)
+	if !ignoreCC {
+		return with, true
 	}
+	// "ignore origin cache directives": the Cache-Control header may be disregarded altogether
+	// (then Expires, else the default, decides) or its max-age may still be used. Expires is not
+	// a Cache-Control directive and stays in force either way. The lifetime is only determined
+	// when both readings agree.
+	noCC := d
+	noCC.HasCC, noCC.NoStore, noCC.NoCache, noCC.Private, noCC.MaxAge = false, false, false, false, -1
+	without := lifetimeOf(noCC, respT, def)
+	if with.Equal(without) {
+		return with, true
+	}
+	return time.Time{}, false
+}
+
+func lifetimeOf(d refDirectives, respT time.Time, def time.Duration) time.Time {
 	if d.MaxAge >= 0 {
-		return respT.Add(time.Duration(d.MaxAge) * time.Second), true
+		return respT.Add(time.Duration(d.MaxAge) * time.Second)
 	}
 	if d.HasExp {
 		if !d.ExpOK {
-			return respT, true // unparseable Expires counts as already expired
+			return respT // unparseable Expires counts as already expired
 		}
-		return d.Exp, true
+		return d.Exp
 	}
-	return respT.Add(def), true
+	return respT.Add(def)
 }
 
 const (
